@@ -18,9 +18,23 @@ def _hook_case(st):
   return None
 
 
+def _macro_ref_case(st):
+  o = st['out']
+  if o.get('op') == 'Finalize':
+    refs = sorted(core.jdump(b['val']) for b in st['cfg'] if '"gin", "macro"' in core.jdump(b['val']))
+    defs = sorted(core.jdump(b['scope']) for b in st['cfg'] if b['sel'] == ['gin', 'macro'])
+    if refs:
+      return core.jdump(['finalize-with-macro-refs', o['status'], refs, defs])
+  return None
+
+
 def run_into(rep, tier):
   # finalize hooks: two hooks returning the same parameter under different spellings conflict (C12_Conflict is checked
   # by TLC in MC_Lock_*; here the shortest witness of every (finalize outcome, hook sequence) class is replayed)
+  # references: a macro referenced explicitly (`@W/gin.macro()` or, equally, `@W/macro()`) is the key its definition is
+  # stored under, whichever spelling either side used: finalize must find the definition
+  cc.replay_scenarios(rep, 'GinCore_Scen_macrofin', max_files=400 if tier == 'quick' else 3000, nontrivial=_macro_ref_case,
+                      depth=5 if tier == 'quick' else 6, timeout=200, salts=(0, 1))
   cc.replay_scenarios(rep, 'GinCore_Scen_lock', max_files=250 if tier == 'quick' else 2000, nontrivial=_hook_case, depth=9)
   cc.model_check(rep, 'MC_Spellings_quick', timeout=600)
   n = 200 if tier == 'quick' else 3000
